@@ -1,7 +1,7 @@
 (* Properties_C02.v — C02: division returns the exact quotient/remainder with the documented
    rounding.  Statements only. *)
 From Coq Require Import ZArith List Bool.
-From Mpir Require Import Word Limbs MpnBasicDefs MpzDefs DivDefs DivWordProofs DivProofs.
+From Mpir Require Import Word Limbs MpnBasicDefs MpzDefs DivDefs DivWordProofs DivWord2Proofs DivProofs.
 Import ListNotations.
 Local Open Scope Z_scope.
 
@@ -15,6 +15,20 @@ Theorem C02_udiv_qrnnd_preinv1 : forall nh nl d, B / 2 <= d < B -> 0 <= nh < d -
   udiv_qrnnd_preinv1 nh nl d (invert_limb d) = ((nh * B + nl) / d, (nh * B + nl) mod d).
 Proof. exact preinv1_spec. Qed.
 Print Assumptions C02_udiv_qrnnd_preinv1.
+
+(* the 3/2 division step of Moeller-Granlund with its reciprocal: exact quotient limb and two-limb
+   remainder, including the equality edges n2:n1 = d1:d0 - 1 and r1 = d1 *)
+Theorem C02_invert_pi1 : forall d1 d0, B / 2 <= d1 < B -> limb d0 ->
+  invert_pi1 d1 d0 = (B * B * B - 1) / (d1 * B + d0) - B.
+Proof. exact invert_pi1_spec. Qed.
+Print Assumptions C02_invert_pi1.
+
+Theorem C02_udiv_qr_3by2 : forall n2 n1 n0 d1 d0, B / 2 <= d1 < B -> limb d0 -> limb n2 -> limb n1 -> limb n0 ->
+  n2 * B + n1 < d1 * B + d0 ->
+  let '(q, r1, r0) := udiv_qr_3by2 n2 n1 n0 d1 d0 (invert_pi1 d1 d0) in
+  q = (n2 * B * B + n1 * B + n0) / (d1 * B + d0) /\ r1 * B + r0 = (n2 * B * B + n1 * B + n0) mod (d1 * B + d0) /\ limb q /\ limb r1 /\ limb r0.
+Proof. exact udiv_qr_3by2_spec. Qed.
+Print Assumptions C02_udiv_qr_3by2.
 
 (* ---- limb level: division by one limb, any n, any non-zero divisor ---- *)
 Theorem C02_divrem_1 : forall n d, wf n -> 0 < d < B ->
